@@ -46,18 +46,23 @@ def check_outputs(meta, run):
     return None
 
 
-def cli_case(build, mode, kind, explicit=False, early=False, midshow=False):
+def cli_case(build, mode, kind, explicit=False, early=False, midshow=False, c_locale=False):
     d = tempfile.mkdtemp(prefix='c06-', dir=SCRATCH_ROOT)
     try:
         n, k = 5, 3
-        with open(os.path.join(d, 'prog.py'), 'w') as fh:
+        with open(os.path.join(d, 'prog.py'), 'w', encoding='utf-8') as fh:
             # early: the program ends before any line of a profiled function has run (e.g. while checking its arguments)
             # midshow: the program asks for an intermediate report itself (the documented profile.show()) and then goes on
             src = kplib.prog_text(n, k, kind, extra='crash(%r)' % kind if early else ('profile.show()' if midshow else ''))
             if explicit:
                 src = src.replace('try:\n    profile\nexcept NameError:\n    def profile(f):\n        return f\n', 'from line_profiler import profile\n')
+            if c_locale:
+                # text the locale's encoding cannot represent, in a profiled line (the report quotes the line)
+                src = '# -*- coding: utf-8 -*-\n' + src.replace('    total = 0\n', "    total = 0          # \u00fc\u00f1\u00ef\u03b1\n", 1)
             fh.write(src)
         e = real_env(build)
+        if c_locale:
+            e.update(LC_ALL='C', LANG='C', PYTHONUTF8='0', PYTHONCOERCECLOCALE='0', PYTHONIOENCODING='utf-8')
         if explicit:
             e['LINE_PROFILE'] = '1'
             cmd = [PY, 'prog.py']
@@ -296,9 +301,10 @@ def run(ctx):
     cli = [(m, k, False, False, False) for m in (['l', 'b', 'lm', 'lp'] if ctx.quick else list(kplib.MODES)) for k in kplib.KINDS] + [('explicit', k, True, False, False) for k in kplib.KINDS]
     cli += [(m, k, x, True, False) for (m, x) in ([('l', False), ('explicit', True)] if ctx.quick else [(m, False) for m in kplib.MODES] + [('explicit', True)]) for k in kplib.KINDS if k != 'none']
     cli += [('explicit', k, True, False, True) for k in kplib.KINDS]        # an intermediate profile.show() by the program, then more work
+    cli += [('explicit', k, True, False, False, True) for k in kplib.KINDS]  # a session whose locale cannot encode text of the profiled source
     with cf.ThreadPoolExecutor(max_workers=12) as ex:
         cres = list(ex.map(lambda c: cli_case(build, *c), cli))
-    for (mode, kind, explicit, early, midshow), r in zip(cli, cres):
+    for (mode, kind, explicit, early, midshow, *_loc), r in zip(cli, cres):
         lbl = explicit or kplib.MODES[mode][1]
         exp = {kplib.WORK_LINES[a] + (0 if explicit else 0): v for a, v in kplib.expected_hits(r['n'], r['k'], kind).items() if v}
         if early and kind != 'none':
@@ -324,7 +330,7 @@ def run(ctx):
             ok, why = False, dict(why, traceback_missing=r['stderr_tail'])
         if not ok:
             ctx.fail('results were not delivered by the real command line / explicit profiler for this ending',
-                     {'finding_class': None, 'cli_case': {'mode': mode, 'kind': kind, 'ends_before_any_profiled_line': early, 'program_called_show_itself_before': midshow}, 'difference': why, 'real': r})
+                     {'finding_class': None, 'cli_case': {'mode': mode, 'kind': kind, 'ends_before_any_profiled_line': early, 'program_called_show_itself_before': midshow, 'non_utf8_locale': bool(_loc and _loc[0])}, 'difference': why, 'real': r})
     # two threads: one leaves its outermost profiled call while the other is in the middle of a line
     tcs = [(k, x) for k in kplib.KINDS for x in (False, True)]
     with cf.ThreadPoolExecutor(max_workers=8) as ex:
